@@ -22,6 +22,8 @@ SPEC = {
         "Sema.C04.C04_exact", "Sema.C04.C04_candidates", "Sema.C04.C04_no_closer_left_out", "Sema.C04.C04_sorted_prefix",
         "Sema.C04.C04_nodup", "Sema.C04.C04_order_indep", "Sema.C04.C04_hybrid", "Sema.C04.C04_enumerable",
         "Sema.C04.C04_forEach_complete", "Sema.C04.C04_warm_cold",
+        # the closure of the code reads only the persisted projection (the side condition `hmode` of C04_warm_cold is what makes it true)
+        "Sema.C04.distKey_norm",
         # tie theorems (SemaModel/C04/Tie.lean, notes/T1ext.md section 7): step / search = the callback fragment of IndexFlat.Search generated from flat.go
         "Sema.C04.C04_tie_step", "Sema.C04.C04_tie_search",
     ],
